@@ -110,7 +110,7 @@ def has_pattern(ty):
     return any((not isinstance(n, str)) and n[0] == "leaf" and n[1] == "pattern" for n in S.ty_nodes(ty))
 
 
-def run_cases(ctx, cases):
+def run_cases(ctx, cases, annot=False):
     from mashumaro.jsonschema import JSONSchemaBuilder
 
     lines, metas = [], []
@@ -118,6 +118,7 @@ def run_cases(ctx, cases):
     built = []
     for ty in cases:
         reg = S.Reg(mixin=True)
+        reg.annot = annot
         keep = False
         try:
             try:
@@ -134,6 +135,8 @@ def run_cases(ctx, cases):
                 for all_refs in (False, True):
                     prefix = rng.choice(PREFIXES)
                     case = {"ty": ty, "dialect": type(dialect).__name__, "all_refs": all_refs, "ref_prefix": prefix}
+                    if annot:
+                        case["annot"] = annot
                     ctx.count(case, nontrivial, kind=f"all_refs:{all_refs}")
                     doc = build_checked(ctx, case, ann, dialect, all_refs, prefix, tags)
                     if doc is not None and not all_refs and inline_doc is None:
@@ -145,6 +148,8 @@ def run_cases(ctx, cases):
                 for dialect in dialects():
                     b = JSONSchemaBuilder(dialect=dialect, all_refs=True)
                     case = {"ty": ty, "builder_sequence": len(seq), "dialect": type(dialect).__name__}
+                    if annot:
+                        case["annot"] = annot
                     try:
                         firsts = [b.build(t).to_dict() for t in seq]
                         defs1 = dict(b.context.definitions)
@@ -175,7 +180,7 @@ def run_cases(ctx, cases):
                 _t, r0 = built.pop(0)
                 r0.close()
             keep = True
-            if inline_doc is not None and c06.modelled(ty) and not has_pattern(ty):
+            if inline_doc is not None and c06.modelled(ty):
                 lines.append({"op": "schema", "ty": ty, "nt_as_dict": False})
                 metas.append(({"ty": ty}, c06.strip_doc(inline_doc), reg))
         finally:
@@ -252,12 +257,22 @@ def run(ctx):
     ctx.rule = RULE
     ctx.lean_check("Mashu.Props.C20", THEOREMS, extra_targets=["Mashu.Dispatch"])
     run_templates(ctx)
+    # repaired defects first: their witnesses must keep passing
+    for f in ctx.known:
+        w = f.get("witness") or {}
+        if f.get("status") == "fixed" and isinstance(w, dict) and "ty" in w:
+            ctx.bump("corpus(fixed findings)")
+            run_cases(ctx, [w["ty"]], annot=w.get("annot", False))
     n, depth = (900, 3) if ctx.tier == "quick" else (15000, 4)
     done = 0
     while done < n and ctx.time_left() > 40:
         k = min(300, n - done)
         run_cases(ctx, gen_types(ctx, k, depth))
         done += k
+    for mode in (True, "newtype", "typealias"):
+        if ctx.time_left() > 40:
+            ctx.bump(f"wrapper cases:{mode}", 150 if ctx.tier == "quick" else 2000)
+            run_cases(ctx, gen_types(ctx, 150 if ctx.tier == "quick" else 2000, depth), annot=mode)
 
 
 def replay(ctx, body):
@@ -266,5 +281,5 @@ def replay(ctx, body):
     if c and "template" in c:
         run_templates(ctx)
     elif c and "ty" in c:
-        run_cases(ctx, [c["ty"]])
+        run_cases(ctx, [c["ty"]], annot=c.get("annot", False))
     return ctx.finish()
